@@ -116,9 +116,9 @@ func (view *View) group(ctx context.Context, scope *ReferenceScope, items []pars
 
 	gm := NewGoroutineTaskManager(view.RecordLen(), -1, scope.Tx.Flags.CPU)
 	groupsList := make([]map[string][]int, gm.Number)
+	groupKeysList := make([][]string, gm.Number)
 	groupKeyCnt := make(map[string]int, 40)
 	groupKeys := make([]string, 0, 40)
-	mtx := &sync.Mutex{}
 
 	var grpFn = func(thIdx int) {
 		defer func() {
@@ -136,6 +136,7 @@ func (view *View) group(ctx context.Context, scope *ReferenceScope, items []pars
 		start, end := gm.RecordRange(thIdx)
 		seqScope := scope.CreateScopeForSequentialEvaluation(view)
 		groups := make(map[string][]int, 20)
+		keys := make([]string, 0, 20)
 		values := make([]value.Primary, len(items))
 
 	GroupKeyLoop:
@@ -167,16 +168,12 @@ func (view *View) group(ctx context.Context, scope *ReferenceScope, items []pars
 			} else {
 				groups[key] = make([]int, 0, int(math.Min(float64(view.RecordLen()/18), 1000)))
 				groups[key] = append(groups[key], i)
-				mtx.Lock()
-				if _, ok := groupKeyCnt[key]; !ok {
-					groupKeyCnt[key] = 0
-					groupKeys = append(groupKeys, key)
-				}
-				mtx.Unlock()
+				keys = append(keys, key)
 			}
 		}
 
 		groupsList[thIdx] = groups
+		groupKeysList[thIdx] = keys
 	}
 
 	if 1 < gm.Number {
@@ -197,7 +194,10 @@ func (view *View) group(ctx context.Context, scope *ReferenceScope, items []pars
 	}
 
 	for i := range groupsList {
-		for k := range groupsList[i] {
+		for _, k := range groupKeysList[i] {
+			if _, ok := groupKeyCnt[k]; !ok {
+				groupKeys = append(groupKeys, k)
+			}
 			groupKeyCnt[k] = groupKeyCnt[k] + len(groupsList[i][k])
 		}
 	}
